@@ -517,13 +517,27 @@ macro_rules! rate_pair {
 pub struct SerdeOps {
     pub t: &'static str,
     pub f: Box<dyn Fn(AmountT, usize) -> Value + Sync + Send>,
+    /// every DECLARED variant name offered to the deserialiser of the unit type
+    pub names: Box<dyn Fn() -> Value + Sync + Send>,
 }
 
 #[macro_export]
 macro_rules! serde_ops {
-    ($v:expr, $tn:expr, $Q:ty, $U:ty) => {
+    ($v:expr, $tn:expr, $Q:ty, $U:ty, [$($dn:expr),* $(,)?]) => {
         $v.push($crate::ops::SerdeOps {
             t: $tn,
+            names: Box::new(|| {
+                let declared: Vec<&'static str> = vec![$($dn),*];
+                let acc: Vec<Value> = declared
+                    .iter()
+                    .map(|n| {
+                        let r = $crate::ops::guard(|| serde_json::from_value::<$U>(json!(n)).map(|z| format!("{:?}", z)).map_err(|e| e.to_string()));
+                        let out = match r { Ok(Ok(v)) => json!({"ok": v}), Ok(Err(e)) => json!({"err": e}), Err(p) => json!({"panic": p}) };
+                        json!({"name": n, "out": out})
+                    })
+                    .collect();
+                json!({"T": $tn, "accepted": acc})
+            }),
             f: Box::new(|a: AmountT, u: usize| {
                 let us: Vec<$U> = <$U as Unit>::iter().collect();
                 let q: $Q = <$Q as Quantity>::new(a, us[u]);
